@@ -214,6 +214,156 @@ def callee_decl(term):
     return c.get("fn")
 
 
+BOARD_TY = "cozy_chess::board::Board"
+
+
+def flatten_private_groups(crates):
+    """A private struct that only groups some private fields of the board (`check_info: CheckInfo { checkers, pinned }`,
+    `counters: MoveCounters { .. }`) is a matter of layout, not of meaning: the grouped fields are read as fields of the
+    board itself.  Done on the dumped MIR before anything else looks at it: `board.g.x` becomes `board.x`, a borrow of
+    `board.g` becomes a borrow of the board (the callee's `self.x` then lands on `board.x`), a `Board { g: v, .. }`
+    literal names the grouped fields one by one, a whole-group assignment is split.  -> {group field: group type}"""
+    adts = {}
+    for j in crates.values():
+        for a in j["adts"]:
+            adts[a["path"]] = a
+    B_ = adts.get(BOARD_TY)
+    if not B_ or B_["kind"] != "Struct":
+        return {}
+    bfields = B_["variants"][0]["fields"]
+    names = {fl["name"] for fl in bfields}
+    # how often each type is used as a field type anywhere
+    uses = {}
+    for a in adts.values():
+        for v in a["variants"]:
+            for fl in v["fields"]:
+                uses[fl["ty"]] = uses.get(fl["ty"], 0) + 1
+    flat = {}
+    for fl in bfields:
+        t = adts.get(fl["ty"])
+        if fl["pub"] or not t or t["kind"] != "Struct" or t.get("pub") or not t["path"].startswith("cozy_chess::board::") or uses.get(fl["ty"]) != 1:
+            continue
+        inner = t["variants"][0]["fields"]
+        if not inner or any(i_["name"] in names or i_["name"].isdigit() for i_ in inner):
+            continue
+        if any(adts.get(i_["ty"], {}).get("path", "").startswith("cozy_chess::board::zobrist") for i_ in inner):
+            continue            # (the position state itself is not a group)
+        flat[fl["name"]] = t
+    if not flat:
+        return {}
+    # the board's field list, flattened
+    newf = []
+    for fl in bfields:
+        if fl["name"] in flat:
+            for i_ in flat[fl["name"]]["variants"][0]["fields"]:
+                newf.append(dict(i_, vis=fl["vis"], pub=False))
+        else:
+            newf.append(fl)
+    B_["variants"][0]["fields"] = newf
+
+    def is_group(e):
+        return isinstance(e, dict) and e.get("of") == BOARD_TY and e.get("n") in flat
+
+    def fix_place(pl, borrow=False):
+        p = pl["p"]
+        out = []
+        i = 0
+        while i < len(p):
+            e = p[i]
+            if is_group(e):
+                nxt = p[i + 1] if i + 1 < len(p) else None
+                if isinstance(nxt, dict) and "f" in nxt and nxt.get("of") == flat[e["n"]]["path"]:
+                    out.append(dict(nxt, of=BOARD_TY))
+                    i += 2
+                    continue
+                if nxt is None and borrow:
+                    i += 1              # `&board.g`: a borrow of the board; fields are found by name through it
+                    continue
+            out.append(e)
+            i += 1
+        pl["p"] = out
+
+    def walk_operand(op):
+        if isinstance(op, dict) and op.get("k") in ("move", "copy") and "pl" in op:
+            fix_place(op["pl"])
+
+    def group_fields_of(op, gname):
+        """operands for the grouped fields, given the operand for the whole group"""
+        inner = flat[gname]["variants"][0]["fields"]
+        tpath = flat[gname]["path"]
+        if op.get("k") in ("move", "copy"):
+            return [{"k": "copy", "pl": {"l": op["pl"]["l"], "p": list(op["pl"]["p"]) + [{"f": ix, "n": i_["name"], "of": tpath, "ty": i_["ty"]}]}}
+                    for ix, i_ in enumerate(inner)]
+        if op.get("k") == "const" and isinstance(op.get("dec"), dict) and "fields" in op["dec"]:
+            vals = dict((n_, v_) for n_, v_ in op["dec"]["fields"])
+            outs = []
+            for i_ in inner:
+                v_ = vals.get(i_["name"])
+                if isinstance(v_, int):
+                    outs.append({"k": "const", "ty": i_["ty"], "v": v_})
+                elif isinstance(v_, dict) and "fields" in v_ and len(v_["fields"]) == 1 and isinstance(v_["fields"][0][1], int):
+                    outs.append({"k": "const", "ty": i_["ty"], "v": v_["fields"][0][1]})      # a newtype around an integer (BitBoard)
+                else:
+                    return None
+            return outs
+        return None
+    for j in crates.values():
+        for bj in j["bodies"]:
+            for blk in bj["blocks"]:
+                new_stmts = []
+                for st in blk["stmts"]:
+                    if st.get("k") == "assign":
+                        rv = st["rv"]
+                        if rv.get("k") == "ref" and "pl" in rv:
+                            fix_place(rv["pl"], borrow=True)
+                        elif "pl" in rv:
+                            fix_place(rv["pl"])
+                        for key in ("op", "a", "b"):
+                            if key in rv:
+                                walk_operand(rv[key])
+                        for o in rv.get("ops") or []:
+                            walk_operand(o)
+                        if rv.get("k") == "agg" and rv.get("adt") == BOARD_TY and any(n_ in flat for n_ in rv.get("fields") or []):
+                            nf, no = [], []
+                            ok = True
+                            for n_, o in zip(rv["fields"], rv["ops"]):
+                                if n_ in flat:
+                                    parts = group_fields_of(o, n_)
+                                    if parts is None:
+                                        ok = False
+                                        break
+                                    nf += [i_["name"] for i_ in flat[n_]["variants"][0]["fields"]]
+                                    no += parts
+                                else:
+                                    nf.append(n_)
+                                    no.append(o)
+                            if ok:
+                                rv["fields"], rv["ops"] = nf, no
+                        fix_place(st["pl"])
+                        # a whole group assigned at once: one assignment per grouped field
+                        tail = st["pl"]["p"][-1] if st["pl"]["p"] else None
+                        if is_group(tail) and rv.get("k") == "use":
+                            parts = group_fields_of(rv["op"], tail["n"])
+                            if parts is not None:
+                                tpath = flat[tail["n"]]["path"]
+                                for ix, (i_, o) in enumerate(zip(flat[tail["n"]]["variants"][0]["fields"], parts)):
+                                    new_stmts.append(dict(st, pl={"l": st["pl"]["l"], "p": st["pl"]["p"][:-1] + [{"f": ix, "n": i_["name"], "of": BOARD_TY, "ty": i_["ty"]}]},
+                                                          rv={"k": "use", "op": o}))
+                                continue
+                    new_stmts.append(st)
+                blk["stmts"] = new_stmts
+                t = blk.get("term") or {}
+                for a in t.get("args") or []:
+                    walk_operand(a)
+                if "discr" in t:
+                    walk_operand(t["discr"])
+                if "dest" in t and isinstance(t["dest"], dict) and "p" in t["dest"]:
+                    fix_place(t["dest"])
+                if "cond" in t:
+                    walk_operand(t["cond"])
+    return {k: v["path"] for k, v in flat.items()}
+
+
 class Facts:
     """All crates of one configuration."""
 
@@ -235,6 +385,7 @@ class Facts:
             if name in self.crates and len(self.crates[name]["features"]) >= len(j["features"]):
                 continue
             self.crates[name] = j
+        self.flattened = flatten_private_groups(self.crates)
         self.bodies = {}
         for cname, j in self.crates.items():
             for bj in j["bodies"]:
